@@ -13,7 +13,7 @@ from .valence import check_valence
 ATOMNAME = re.compile(r"^([A-Z][a-z]?|\*)(\d+)$")
 
 
-def numbering(coarse, fine, all_atom, shared_atoms):
+def numbering(coarse, fine, all_atom, shared_atoms, names_agree=True):
     """C12 clause 1: canonical numbering and atom names."""
     out = []
     keys = list(fine.nodes)
@@ -43,7 +43,7 @@ def numbering(coarse, fine, all_atom, shared_atoms):
         if len(seen) != len(set(seen)):
             out.append(("C12.numbering", "members of a coarse node are not contiguous: block sequence %r" % (seen[:40],)))
         # ... and the block of coarse node k holds atoms of the fragment that node k names
-        for key in range(n):
+        for key in range(n if names_agree else 0):
             owner = fine.nodes[key]["fragid"][0]
             if owner in coarse.nodes:
                 want = coarse.nodes[owner].get("fragname")
